@@ -34,7 +34,24 @@ THEOREMS = [
     "Ural.Props.C12.relru_fixed_caseinv",
     "Ural.Props.C12.accessors_roundtrip",
     "Ural.Props.C12.stems_wellformed_of_split",
+    "Ural.Props.C12.serialization_string_of_split",
+    "Ural.Props.C12.roundtrip_string_of_law",
+    "Ural.Props.C12.accessors_string_of_law",
+    # with suffix_trie.py inside (Props/C12Psl.lean, Props/C13Psl.lean): nothing assumed about split_suffix
+    "Ural.Props.C12.serialization_string_psl",
+    "Ural.Props.C12.stems_wellformed_psl",
+    "Ural.Props.C12.splitLaw_psl_class",
+    "Ural.Props.C12.roundtrip_string_psl",
+    "Ural.Props.C12.accessors_string_psl",
+    "Ural.Props.C12.fullRoundtripStringPsl_false",
+    "Ural.Props.C13.mem_pslSplit",
+    "Ural.Props.C13.split_nobar_psl",
+    "Ural.Props.C13.splitLaw_psl_plain",
+    "Ural.Props.C13.splitCaseInv_psl",
+    "Ural.Props.C13.pslSplit_spec",
+    "Ural.Props.C08.walk_eq_psl",
 ]
+EXTRA_IMPORTS = ["UralModel.Props.C12Psl"]
 TABLE_OBLIGATIONS = [
     "Ural.Props.C12.port_splitter_pattern",
     "Ural.Props.C12.serialized_lru_splitter_pattern",
@@ -42,6 +59,9 @@ TABLE_OBLIGATIONS = [
     "Ural.Props.C12.serialized_lru_splitter_probes",
     "Ural.Props.C12.protocol_re_pattern",
     "Ural.Props.C12.urllib_uses_netloc",
+    # the *_psl theorems have the C08 model of suffix_trie.py inside: its hand-written is_special_host is re-checked
+    # against the verdicts of the real SPECIAL_HOSTS_RE (regenerated) when Props/C12Psl is built
+    "Ural.Props.C08.special_hosts_probes",
 ]
 RULE = (
     "A case is a URL string with the suffix_aware modes to run it in (both, for the corpus and the grammar). The stream is: the regression corpus (IPv6 with port, "
@@ -67,7 +87,11 @@ RULE = (
     "(op parse_url), and the composed pipeline of Model/LruUrl.lean (op lru_url: urlsplit(ensure_protocol(u)), "
     "lru_stems(u), url_to_lru(u), lru_to_url of it, urlsplit of that, url_to_lru of that, ValueError included, "
     "and membership of the class `inClass` of the string-level theorems) must agree with the real functions "
-    "and with an independent Python reading of the class. The distribution counts the evaluations inside the "
+    "and with an independent Python reading of the class. Tie of the theorems with suffix_trie.py inside (*_psl): for "
+    "every URL case run with suffix_aware=True the model splits the host with ITS OWN trie built from the regenerated "
+    "suffix list (op lru_pairs_psl with an empty batch: nothing shipped from the real split_suffix) and must return "
+    "the real split_suffix answer; the host condition pslHostOK of roundtrip_string_psl is compared with an independent "
+    "Python reading. The distribution counts the evaluations inside the "
     "proved class (string-class:inside) and, outside, the clause that fails. "
     "Non-trivial = the URL has no '|', urlsplit accepts it and it is inside the grammar (wf); "
     "distinct = distinct (URL, modes)."
@@ -82,12 +106,12 @@ TRUSTED = [
     "the two regexes are modelled by hand-written splitters; their pattern strings and the verdicts of the compiled regexes on a probe list are regenerated into Gen/LruPatterns.lean and re-checked by `decide` (table obligations), and the splitters are compared with re.split on every generated string",
     "CPython's urlsplit / SplitResult accessors / urlunsplit are hand-written Lean models (Py/UrlSplit.lean, Py/UrlAccessors.lean, Py/Split.lean) — compared with CPython 3.12 on every URL of the stream and on every round-trip result (ops parse_url, lru_url, urlunsplit), NOT proved equal to it; stated restrictions of the parser model: str.lower is ASCII lower-casing, _checknetloc (NFKC) is not modelled, _check_bracketed_host is approximated (no IPv4 tail inside an IPv6 literal: such URLs are rejected by the model, hence outside the string-level class, and withheld from the string-level tie); ensure_protocol is the model UrlParts.ensureProtocol (PROTOCOL_RE hand-matched; table obligations protocol_re_pattern, urllib_uses_netloc)",
     "ASCII-exact model: str.lower and \\d are modelled on ASCII only; generators use non-ASCII characters on which lower() is the identity and no non-ASCII digits",
-    "split_suffix (public-suffix trie, property C08) is an abstract parameter of the model; the driver uses the answer of the real split_suffix shipped with each case",
+    "split_suffix (public-suffix trie, property C08) is an abstract parameter of the model; the driver uses the answer of the real split_suffix shipped with each case; for the *_psl theorems it is the hand-written Lean model of ural/classes/suffix_trie.py (Model/SuffixTrie.lean, Model/LruPsl.lean; proved equal to the publicsuffix.org algorithm over the rule list: C08.walk_eq_psl) on the list regenerated from ural.tld_data — tied to the real split_suffix on the host of every suffix-aware URL case of this run (op lru_pairs_psl, nothing shipped)",
 ]
 ASSUMPTIONS = [
-    "C08 clause used as hypothesis (SplitRejoins / SplitRejoinsUrl): when split_suffix(url) is not None its two parts re-join to the lower-cased urlsplit(url).hostname; checked on every in-grammar case of this run (it fails exactly for hosts with a trailing dot, which are outside the suffix-aware reading). Nothing is assumed about split_suffix on a bracketed IP literal: stems.py does not consult it there (fix of the former KF-C12-1), and the theorems do not either (hostSplit, splitLaw_bracketed)",
-    "C08 case clause used as hypothesis (SplitCaseInv / SplitCaseInvUrl = Props.C08.split_case_insensitive at the hostname of u), only for suffix_aware=True and a plain host holding '%' (CPython's .hostname keeps the letter case of what follows a '%', the suffix-aware mode lower-cases the whole host): split_suffix answers the same for the lower-cased hostname; checked by the oracle on every such case of this run",
-    "reading: the suffix-aware clause is demanded for hosts without empty label (DESIGN D35); hosts are compared lower-cased in suffix-aware mode (so a plain host with '%' is inside the reading: the accessor form B.hostname == A.hostname is NOT demanded there, it fails by design of CPython's .hostname); userinfo/host without raw '@', port without ':' (the grammar); empty and absent user/password identified",
+    "C08 clause used as hypothesis (SplitRejoins / SplitRejoinsUrl) ONLY by the theorems with an abstract split_suffix (serialization_string, roundtrip_string_partial, accessors_string_partial, stems_wellformed, roundtrip_parts): when split_suffix(url) is not None its two parts re-join to the lower-cased urlsplit(url).hostname. For the real split_suffix it is FALSE on a plain host that ends with '.' or is '.'+public suffix (suffix_trie.py strips trailing dots / answers an empty domain) — there these theorems say nothing; the theorems with suffix_trie.py inside (serialization_string_psl: no hypothesis at all; roundtrip_string_psl / accessors_string_psl: host condition pslHostOK = bracketed literal, or neither leading nor trailing dot) replace the hypothesis by a proof (splitLaw_psl_class, splitCaseInv_psl), and the clause is checked by the oracle on every pslHostOK case of this run. Nothing is assumed about split_suffix on a bracketed IP literal: stems.py does not consult it there (fix of the former KF-C12-1), and the theorems do not either (hostSplit, splitLaw_bracketed)",
+    "C08 case clause used as hypothesis (SplitCaseInv / SplitCaseInvUrl = Props.C08.split_case_insensitive at the hostname of u) by roundtrip_string_partial only, for suffix_aware=True and a plain host holding '%' (CPython's .hostname keeps the letter case of what follows a '%', the suffix-aware mode lower-cases the whole host): split_suffix answers the same for the lower-cased hostname; proved for suffix_trie.py (splitCaseInv_psl), checked by the oracle on every such case of this run",
+    "reading: hosts are compared lower-cased in suffix-aware mode (so a plain host with '%' is inside the reading: the accessor form B.hostname == A.hostname is NOT demanded there, it fails by design of CPython's .hostname); userinfo/host without raw '@', port without ':' (the grammar); 'userinfo' is compared as the pair (user or '', password or ''): empty and absent user/password are identified ('http://u:@h' comes back as 'http://u@h', 'http://@h' and 'http://:@h' as 'http://h'); 'host:' (empty port) and 'host' are the same port for the oracle (CPython .port is None for both). The former reading 'suffix-aware clause only for hosts without empty label' (DESIGN D35) is WITHDRAWN: every plain host is demanded, the loss of a trailing / lone leading empty label is the known finding KF-C12-2",
 ]
 UNPROVED = (
     "The parser hypothesis is discharged: roundtrip_string_partial / accessors_string_partial / serialization_string are "
@@ -97,13 +121,25 @@ UNPROVED = (
     "(2) the round trip is proved on the class inClass = {u : the parser accepts ensure_protocol(u); no '|'; netloc in the "
     "grammar wfNetloc; a host; no raw '[' ']' in the userinfo} — one class for both modes, split_suffix is not consulted: "
     "EVERY bracketed literal is inside it (pure IPv6, zone id, IPvFuture, whatever public suffix its text ends with — the "
-    "former KF-C12-1 witnesses now round-trip, Lean examples), and so are plain hosts with '%' (suffix-aware: given C08's "
-    "case clause SplitCaseInvUrl, which is Props.C08.split_case_insensitive at the hostname of u). Outside the class: no host / "
+    "former KF-C12-1 witnesses now round-trip, Lean examples), and so are plain hosts with '%'. Outside the class: no host / "
     "netloc outside the grammar really fail (fullRoundtripString_false, examples); a malformed authority raises ValueError; "
     "a raw bracket in the userinfo: no failing input known, the proof would need the bracket check of urlsplit to survive "
     "the removal of an empty password (IPvFuture / zone texts holding ':@') — covered by correspondence + oracle only. "
-    "accessors_string_partial (the statement in CPython's vocabulary, B.hostname == A.hostname) has the extra hypothesis "
-    "'suffix-aware: no % in a plain host', and really fails without it (example: http://a%B.com/ comes back as "
+    "(2a) SUFFIX-AWARE MODE, inside the class: the theorems for an abstract split_suffix (roundtrip_string_partial, "
+    "accessors_string_partial, and serialization_string outside the class too) take C08's clause at u (SplitRejoinsUrl) as a "
+    "HYPOTHESIS, which the real split_suffix does not satisfy on a plain host ending with '.' or equal to '.'+public suffix; "
+    "with suffix_trie.py inside (Props/C12Psl.lean) serialization_string_psl has NO hypothesis (every '|'-free string the parser "
+    "accepts, those hosts included) and roundtrip_string_psl / accessors_string_psl hold under the exact host condition pslHostOK "
+    "(bracketed literal, or neither leading nor trailing dot; C08's case clause for hosts with '%' is proved, not assumed). "
+    "OUTSIDE pslHostOK THE PROPERTY REALLY FAILS ON THE CODE — known finding KF-C12-2: lru_to_url(url_to_lru('http://a.co.uk./', "
+    "suffix_aware=True)) == 'http://a.co.uk/' (suffix_aware=False keeps the root label as the empty stem 'h:'), likewise "
+    "'http://.co.uk/' -> 'http://co.uk/'; theorem fullRoundtripStringPsl_false + examples (on a toy suffix list; reproduced on the "
+    "implementation with the real list on every run), candidate patch notes/fixes/c12-lru-stems-suffix-aware-empty-labels.diff. "
+    "Hosts with an inner or leading empty label that is part of the domain (a..co.uk, .a.co.uk) are inside pslHostOK or round-trip anyway. "
+    "(2b) userinfo is compared up to 'empty ≡ absent' (expectedParts / canonAuth; 'u:@h' -> 'u@h', '@h' -> 'h'): a reading of "
+    "'re-parse to exactly the components … userinfo', the printed strings differ; "
+    "accessors_string_partial / accessors_string_psl (the statement in CPython's vocabulary, B.hostname == A.hostname) have the extra hypothesis "
+    "'suffix-aware: no % in a plain host', and really fail without it (example: http://a%B.com/ comes back as "
     "http://a%b.com/; .hostname does not lower-case after '%'); "
     "(3) embedded-IPv4 literals are covered at component level (splitRejoins_of_c08, relru_fixed, roundtrip_parts) "
     "but not at string level: the parser model rejects them (stated restriction of Py/UrlSplit.lean)"
@@ -156,8 +192,10 @@ CORPUS = [
     "http://A.CoM:80/", "http://me.github.io/p",
     # specials
     "localhost", "localhost:8080/a", "127.0.0.1:80", "http://1.2.3.4/", "http://LOCALHOST/",
-    # trailing dot (D35, outside the suffix-aware reading), empty labels
-    "http://a.com./", "http://a..com/", "http://.a.com/",
+    # KF-C12-2 (D35): suffix-aware stems lose a trailing root label / the lone leading dot in front of a public
+    # suffix (suffix_aware=False keeps them); other empty labels round-trip
+    "http://a.co.uk./", "http://a.com./", "http://.co.uk/", "http://A.Co.UK..:80/x//y?q#f", "http://u:p@.com/", "http://x.www.ck./",
+    "http://a..com/", "http://.a.com/", "http://..co.uk/", "http://a.b.notatld./", "http://localhost./", "http://[::1%a.co.uk.]/",
     # outside the grammar: several '@', several ':', stray brackets, empty host
     "http://a@b@c.com/", "http://a.com:80:90/", "http://a]:80/", "http:///path", "http:////x", "http://:80/",
     "http://u:p:q@a.com/", "http://a.com:x/", "http://a%41.com/",
@@ -356,6 +394,12 @@ def wf_host_sa(netloc):
     return "%" not in host
 
 
+def psl_host_ok(host):
+    """the exact host condition of the suffix-aware round trip (Lean: Lru.pslHostOK): a bracketed literal, or a host
+    that neither starts nor ends with a dot"""
+    return host.startswith("[") or not (host.startswith(".") or host.endswith("."))
+
+
 def ascii_lower(s):
     return "".join(chr(ord(c) + 32) if "A" <= c <= "Z" else c for c in s)
 
@@ -540,6 +584,8 @@ def ops(case):
             o = parts_json(A, split)
             o.update({"f": "lru", "sa": sa})
             out.append(o)
+        if True in case["sa"]:
+            out.append(psl_tie_op(A))
         return out
     if k == "stems":
         return [{"f": "lru_stems", "stems": case["stems"]}]
@@ -549,6 +595,23 @@ def ops(case):
         t = case["t"]
         return [{"f": "urlunsplit", "scheme": t[0], "netloc": t[1], "path": t[2], "query": t[3], "fragment": t[4]}]
     return []
+
+
+def psl_tie_op(A):
+    """tie of the *_psl theorems (Props/C12Psl.lean: split_suffix := the model of suffix_trie.py, Lru.pslSplit): the
+    model splits the host of this URL with its own trie, built from the regenerated suffix list — NO answer of the
+    real split_suffix is shipped (driver op lru_pairs_psl of Driver/C13.lean, with an empty batch) — and must return
+    what the real split_suffix answered (hostSplit: a bracketed literal has none)"""
+    from props import C08 as P
+
+    return {"f": "lru_pairs_psl", "rules_file": P.T()["path"], "sa": True, "u": parts_json(A, None), "vs": []}
+
+
+def host_split_of(A, split):
+    sp = spec_hostport(hostport_of(A[1]))
+    if sp is not None and sp[0].startswith("["):
+        return None
+    return split
 
 
 def _guard(fn):
@@ -592,6 +655,7 @@ def _impl_url(C, url, sa, A, split):
         h, p = spec_hostport(hostport_of(A[1]))
         out["spec_host"] = h
         out["spec_port"] = "absent" if p is None else {"some": p}
+        out["psl_host_ok"] = psl_host_ok(h)
         out["expected"] = expected_tuple(t, sa, split)
     return out
 
@@ -607,7 +671,10 @@ def impl(case):
         if pr is None:
             return out
         A, split = pr
-        return out + [_impl_url(C, case["url"], sa, A, split) for sa in case["sa"]]
+        out = out + [_impl_url(C, case["url"], sa, A, split) for sa in case["sa"]]
+        if True in case["sa"]:
+            out.append({"u_split": host_split_of(A, split), "rows": []})
+        return out
     if k == "stems":
         st = case["stems"]
         lru = _guard(lambda: serialize_lru(st))
@@ -630,7 +697,7 @@ def canon(op, out):
     out = dict(out)
     if op["f"] == "lru" and not out.get("wf"):
         # the grammar host/port and the expected tuple are only defined inside the grammar
-        for k in ("spec_host", "spec_port", "expected", "wf_sa"):
+        for k in ("spec_host", "spec_port", "expected", "wf_sa", "psl_host_ok"):
             out.pop(k, None)
     if op["f"] == "lru_url" and op.get("skip_back"):
         # the round-trip result is outside the stated domain of the parser model
@@ -677,8 +744,6 @@ def in_reading(A, sa):
     if host == "" and (t[2] == "" or t[2].startswith("/")):
         # a URL without host is outside the grammar (and CPython's urlunsplit drops an empty
         # netloc in front of a path starting with '//')
-        return False
-    if sa and has_empty_label(host) and host != "":
         return False
     return True
 
@@ -736,9 +801,13 @@ def oracle_url(url, sa):
         return "serialize_lru(unserialize_lru(lru)) = %r, lru = %r" % (serialize_lru(unserialize_lru(lru)), lru)
     if not in_reading(A, sa):
         return None
-    # assumption on split_suffix (C08): re-joins to the lower-cased hostname — not for a bracketed literal, on which
-    # split_suffix is not consulted (nothing is assumed about its answer there)
-    if sa and split is not None and not spec_hostport(hostport_of(A[1]))[0].startswith("["):
+    # C08's clause (the two parts of split_suffix re-join to the lower-cased hostname) — a theorem for the model of
+    # suffix_trie.py on every host that is psl_host_ok (splitLaw_psl_class), and the hypothesis of the theorems with an
+    # abstract split_suffix: a real split_suffix that breaks it there is reported.  Not for a bracketed literal, on
+    # which split_suffix is not consulted.  Outside psl_host_ok (trailing dot, leading dot) the clause is false by
+    # construction of suffix_trie.py and NOT assumed: the round trip is demanded all the same and its loss is KF-C12-2.
+    host = spec_hostport(hostport_of(A[1]))[0]
+    if sa and split is not None and not host.startswith("[") and psl_host_ok(host):
         d, s = split
         rj = s if d == "" else d + "." + s
         if rj != (A.hostname or "").lower():
@@ -748,6 +817,8 @@ def oracle_url(url, sa):
     want = raw_components(A)
     if sa:
         want = want[:3] + (want[3].lower(),) + want[4:]
+    kf = None
+    lossy = kf_lossy_host(host, split) if sa else None
     for name, arg in (("url_to_lru", lru), ("lru_stems", list(stems))):
         try:
             back = lru_to_url(arg)
@@ -763,14 +834,48 @@ def oracle_url(url, sa):
         if got != want:
             names = ["scheme", "user", "password", "host", "port", "path", "query", "fragment"]
             diff = [n for n, a, b in zip(names, want, got) if a != b]
-            return "lru_to_url(%s(u)) = %r: components %s differ: %r vs %r" % (name, back, diff, want, got)
+            msg = "lru_to_url(%s(u)) = %r: components %s differ: %r vs %r" % (name, back, diff, want, got)
+            if diff == ["host"] and lossy is not None and got[3] == lossy:
+                # the class of KF-C12-2, and exactly its loss: remembered, the other clauses are still checked
+                kf = kf or (msg + " " + KF2_MARK)
+            else:
+                return msg
         try:
             again = url_to_lru(back, suffix_aware=sa)
         except Exception as e:  # noqa
             return "url_to_lru(%r) raised %s" % (back, type(e).__name__)
         if again != lru:
             return "url_to_lru(lru_to_url(%s(u))) = %r, expected %r (u -> %r)" % (name, again, lru, back)
-    return None
+    return kf
+
+
+KF2_MARK = "[suffix-aware: an empty host label is lost — trailing dot(s) / lone leading dot in front of the public suffix]"
+
+
+def kf_lossy_host(host, split):
+    """KF-C12-2, the exact class and the exact loss: a plain (not bracketed) host that ends with a dot, or that is a
+    dot followed by its public suffix, for which split_suffix answers (domain, suffix).  suffix_trie.py walks the
+    hostname without its trailing dots and returns an empty domain for `.suffix`, stems.py emits `h:suffix` and the
+    labels of a non-empty domain only: lru_to_url gives back the two parts re-joined.  Returns that host (lower-cased,
+    as the suffix-aware mode compares hosts) when it differs from the host of the URL, else None."""
+    if split is None or host.startswith("[") or host == "":
+        return None
+    d, s = split
+    if not (host.endswith(".") or (host.startswith(".") and d == "")):
+        return None
+    rj = s if d == "" else d + "." + s
+    return rj if rj != ascii_lower(host) else None
+
+
+def kf_suffix_aware_empty_label(case, failure):
+    """KF-C12-2: suffix_aware=True, the only component that differs is the host, the URL's host is in the class of
+    kf_lossy_host and what came back is exactly the two parts of split_suffix re-joined"""
+    if case.get("k") != "url" or not failure.startswith("suffix_aware=True:") or not failure.endswith(KF2_MARK):
+        return False
+    pr = cparse(case["url"])
+    if pr is None or not wf_netloc(pr[0][1]):
+        return False
+    return kf_lossy_host(spec_hostport(hostport_of(pr[0][1]))[0], pr[1]) is not None
 
 
 def nontrivial(case):
@@ -831,6 +936,10 @@ def classify(case):
         if h.startswith("[") and split is not None and True in case["sa"]:
             # the class the fix FX-C12-df640b6 is about: split_suffix finds a suffix in the literal's text
             labs.append("bracketed-literal-with-public-suffix-text")
+    if True in case["sa"] and sp and kf_lossy_host(sp[0], split) is not None and in_reading(A, True):
+        labs.append("kf-region(KF-C12-2:empty-host-label-lost)")
+    if True in case["sa"] and sp and not psl_host_ok(sp[0]):
+        labs.append("host-outside-pslHostOK")
     if True in case["sa"]:
         labs.append("split=" + ("none" if split is None else "suffix-only" if split[0] == "" else "%d-label-suffix" % (split[1].count(".") + 1)))
     if "//" in A[2] or A[2].endswith("/"):
